@@ -1223,6 +1223,33 @@ impl Machine {
                     if dbg.is_empty() || Some(shown.clone()) != sonic_rs::to_string(x).ok() {
                         return Out::Text(format!("Display {:?} differs from to_string", shown));
                     }
+                    // the value traits forward unchanged through &V, Option<&V> and Result<&V, E>
+                    {
+                        let o = Some(x);
+                        let rr: Result<&Value, ()> = Ok(x);
+                        let kk = k.as_str();
+                        let same = |a: Option<&Value>, b: Option<&Value>| a.map(|v| v as *const Value) == b.map(|v| v as *const Value);
+                        let fwd = same(o.get(kk), x.get(kk))
+                            && same(o.get(*i), x.get(*i))
+                            && same(rr.get(kk), x.get(kk))
+                            && same((&x).get(*i), x.get(*i))
+                            && same(o.pointer(&[PointerNode::Index(*i)]), x.pointer(&[PointerNode::Index(*i)]))
+                            && same(rr.pointer(&[PointerNode::Key(faststr::FastStr::new(kk))]), x.get(kk))
+                            && o.as_array().map(|a| a.len()) == x.as_array().map(|a| a.len())
+                            && rr.as_object().map(|a| a.len()) == x.as_object().map(|a| a.len())
+                            && (&x).as_array().map(|a| a.len()) == x.as_array().map(|a| a.len())
+                            && o.get_type() == x.get_type()
+                            && rr.as_str() == x.as_str()
+                            && o.as_u64() == x.as_u64()
+                            && rr.as_f64().map(f64::to_bits) == x.as_f64().map(f64::to_bits)
+                            && x.is_true() == (x.as_bool() == Some(true))
+                            && x.is_false() == (x.as_bool() == Some(false))
+                            && None::<&Value>.get(kk).is_none()
+                            && None::<&Value>.as_array().is_none();
+                        if !fwd {
+                            return Out::Text("trait forwarding through &V / Option / Result differs from the direct call".into());
+                        }
+                    }
                     Out::Text(format!(
                         "key={} idx={} getk={} geti={} obj={} arr={} text={}",
                         js(&x[k.as_str()]),
